@@ -449,11 +449,11 @@ const SOUND_TOKENS: [&str; 14] = ["0", "2", "4", "8", "14", "15", "1", "255", "2
 const TYPE_TOKENS: [&str; 26] = [
     "1", "5", "2", "6", "8", "12", "128", "3", "9", "130", "136", "0", "4", "16", "64", "256", "-1", "-2", "-128", "2147483647", "-2147483648", "2147483648", " 1", "1 ", "x", "",
 ];
-const COORD_TOKENS: [&str; 22] = [
-    "0", "256", "192", "-5", "512.7", "-0.5", "1e2", "131072", "131072.5", "-131072", "131073", "-131073", "1e9", "nan", "inf", " 64 ", "", "x", "0x10", "255.99999", "-0", "64\u{a0}",
+const COORD_TOKENS: [&str; 26] = [
+    "0", "256", "192", "-5", "512.7", "-0.5", "1e2", "131072", "131072.5", "-131072", "131073", "-131073", "1e9", "nan", "inf", " 64 ", "", "x", "0x10", "255.99999", "-0", "64\u{a0}", "-nan", "+nan", "-inf", "+inf",
 ];
-const TIME_TOKENS: [&str; 20] = [
-    "0", "-0", "1000", "1000.5", "-500", "1e3", "2147483647", "2147483647.5", "-2147483647", "-2147483648", "nan", "inf", "1e999", "", "abc", " 250 ", "99.99999", "4.9e-324", "+12", "12.",
+const TIME_TOKENS: [&str; 25] = [
+    "0", "-0", "1000", "1000.5", "-500", "1e3", "2147483647", "2147483647.5", "-2147483647", "-2147483648", "nan", "inf", "1e999", "", "abc", " 250 ", "99.99999", "4.9e-324", "+12", "12.", "-nan", "+nan", "-NaN", "-inf", "+inf",
 ];
 const BANK_TOKENS: [&str; 14] = ["0:0:0:0:", "1:2:3:50:hit.wav", "0:0:0:0:x", "0:0", "", ":", "a:0:0:0:", "0:0:0:2147483648:", "0:0:0:0::extra", " 1 : 2 ", "0:0:0", "1", "::::", "::::f"];
 const POINT_TOKENS: [&str; 26] = [
@@ -511,7 +511,7 @@ pub fn gen_hit_line(rng: &mut Rng, wild: bool) -> String {
         f.push(gen_path(rng));
         f.push(if wild && rng.chance(1, 6) { (*rng.pick(&["0", "-5", "9000", "9001", "2147483647", "-2147483647", "-2147483648", "x", "", "1.5", " 2 "])).to_owned() } else { rng.range(1, 4).to_string() });
         if nopt > 0 {
-            f.push(if wild && rng.chance(1, 5) { (*rng.pick(&["0", "-0", "-10", "1e-17", "2.3e-16", "131072", "131072.1", "nan", "", "x", "1e-320"])).to_owned() } else { (rng.range(1, 600) as f64 * 0.75).to_string() });
+            f.push(if wild && rng.chance(1, 5) { (*rng.pick(&["0", "-0", "-10", "1e-17", "2.3e-16", "131072", "131072.1", "nan", "-nan", "+nan", "inf", "-inf", "", "x", "1e-320"])).to_owned() } else { (rng.range(1, 600) as f64 * 0.75).to_string() });
         }
         if nopt > 1 {
             f.push((*rng.pick(&["2|0|8", "0|0", "4", "x|2|300|-1", "", "1|2|3|4|5|6|7|8", "|"])).to_owned());
@@ -573,7 +573,7 @@ pub fn gen_timing_line(rng: &mut Rng, wild: bool) -> String {
     let time = if wild && rng.chance(1, 6) { (*rng.pick(&TIME_TOKENS)).to_owned() } else { (*rng.pick(&["0", "-0", "100", "100", "250.5", "1000", "-500", "1e-17", "100.00000000000001", "2147483647", "5000"])).to_owned() };
     let beat = (*rng.pick(&[
         "500", "300", "333.33", "5", "6", "5.999", "60000", "70000", "-100", "-50", "-200", "-1000", "-5", "-20000", "-9.99", "-10.0001", "-1e9", "-2147483647", "-2147483648", "2147483648", "nan",
-        "NaN", "0", "-0", "-100.00000000000001", "inf", "-inf", "1e-320", "-1e-320", "-1e-5", " -100 ", "", "x", "-33.333333333333336", "-3", "-1e6", "-1000001",
+        "NaN", "0", "-0", "-100.00000000000001", "inf", "-inf", "1e-320", "-1e-320", "-1e-5", " -100 ", "", "x", "-33.333333333333336", "-3", "-1e6", "-1000001", "-nan", "-NaN", "+nan", "-NAN", "+inf", "-nan", "-nan ",
     ]))
     .to_owned();
     let mut f = vec![time, beat];
@@ -844,7 +844,7 @@ pub fn cases(run: &mut Run, seed: u64, thorough: bool, only: Option<&str>) {
         }
     }
     // 2b. the rejected-slider scratch witness (DESIGN 9.3) and the resource maps line by line
-    dln_case(run, "dln-witness", "H", 0, &["0,0,0,2,0,B|10:10|B|x:y,1,50".to_owned(), "100,100,500,2,0,L|200:200,1,70".to_owned()]);
+    dln_case(run, "dln-witness", "H", 0, &["0,0,0,2,0,B|10:10|B|20:20|B|x:y,1,50".to_owned(), "100,100,500,2,0,L|200:200,1,70".to_owned()]);
     // 3. whole files through the section driver
     let n_files = if thorough { 30000 } else { 2500 };
     for ci in 0..n_files {
